@@ -5,6 +5,7 @@ import (
 	"errors"
 	"fmt"
 	"io"
+	"math"
 )
 
 // HeaderHash
@@ -191,6 +192,9 @@ func (t *TicketAttempt) Decode(d *Decoder) error {
 	}
 	cLog(Yellow, "TicketAttempt: %v", val)
 
+	if val > math.MaxUint8 {
+		return fmt.Errorf("TicketAttempt value %d out of range", val)
+	}
 	*t = TicketAttempt(val)
 	return nil
 }
@@ -326,6 +330,9 @@ func (t *Header) Decode(d *Decoder) error {
 	}
 
 	epochMarkPointerFlag, err := d.ReadPointerFlag()
+	if err != nil {
+		return err
+	}
 	epochMarkPointerIsNil := epochMarkPointerFlag == 0
 	if epochMarkPointerIsNil {
 		cLog(Yellow, "EpochMark is nil")
@@ -341,6 +348,9 @@ func (t *Header) Decode(d *Decoder) error {
 	}
 
 	ticketsMarkPointerFlag, err := d.ReadPointerFlag()
+	if err != nil {
+		return err
+	}
 	ticketsMarkPointerIsNil := ticketsMarkPointerFlag == 0
 	if ticketsMarkPointerIsNil {
 		cLog(Yellow, "TicketsMark is nil")
@@ -856,6 +866,9 @@ func (r *RefineLoad) Decode(d *Decoder) error {
 		return err
 	}
 
+	if imports > math.MaxUint16 {
+		return fmt.Errorf("U16 value %d out of range", imports)
+	}
 	r.Imports = U16(imports)
 
 	extrinsicCount, err := d.DecodeInteger()
@@ -863,6 +876,9 @@ func (r *RefineLoad) Decode(d *Decoder) error {
 		return err
 	}
 
+	if extrinsicCount > math.MaxUint16 {
+		return fmt.Errorf("U16 value %d out of range", extrinsicCount)
+	}
 	r.ExtrinsicCount = U16(extrinsicCount)
 
 	extrinsicSize, err := d.DecodeInteger()
@@ -870,6 +886,9 @@ func (r *RefineLoad) Decode(d *Decoder) error {
 		return err
 	}
 
+	if extrinsicSize > math.MaxUint32 {
+		return fmt.Errorf("U32 value %d out of range", extrinsicSize)
+	}
 	r.ExtrinsicSize = U32(extrinsicSize)
 
 	exports, err := d.DecodeInteger()
@@ -877,6 +896,9 @@ func (r *RefineLoad) Decode(d *Decoder) error {
 		return err
 	}
 
+	if exports > math.MaxUint16 {
+		return fmt.Errorf("U16 value %d out of range", exports)
+	}
 	r.Exports = U16(exports)
 
 	return nil
@@ -933,6 +955,9 @@ func (w *WorkReport) Decode(d *Decoder) error {
 	coreIndex, err := d.DecodeLength()
 	if err != nil {
 		return err
+	}
+	if coreIndex > math.MaxUint16 {
+		return fmt.Errorf("CoreIndex value %d out of range", coreIndex)
 	}
 	w.CoreIndex = CoreIndex(coreIndex)
 	cLog(Yellow, "CoreIndex: %v", w.CoreIndex)
@@ -1186,6 +1211,9 @@ func (f *Fault) Decode(d *Decoder) error {
 	}
 	cLog(Yellow, "Vote: %v", vote)
 
+	if vote > 1 {
+		return fmt.Errorf("Fault: invalid boolean %d", vote)
+	}
 	f.Vote = vote == 1
 
 	if err = f.Key.Decode(d); err != nil {
@@ -1268,6 +1296,9 @@ func (j *Judgement) Decode(d *Decoder) error {
 	}
 	cLog(Yellow, "Vote: %v", vote)
 
+	if vote > 1 {
+		return fmt.Errorf("Judgement: invalid boolean %d", vote)
+	}
 	j.Vote = vote == 1
 
 	if err = j.Index.Decode(d); err != nil {
@@ -1684,6 +1715,9 @@ func (c *CoreActivityRecord) Decode(d *Decoder) error {
 	if err != nil {
 		return err
 	}
+	if daLoad > math.MaxUint32 {
+		return fmt.Errorf("U32 value %d out of range", daLoad)
+	}
 	c.DALoad = U32(daLoad)
 	cLog(Yellow, "DALoad: %v", c.DALoad)
 
@@ -1692,6 +1726,9 @@ func (c *CoreActivityRecord) Decode(d *Decoder) error {
 	if err != nil {
 		return err
 	}
+	if popularity > math.MaxUint16 {
+		return fmt.Errorf("U16 value %d out of range", popularity)
+	}
 	c.Popularity = U16(popularity)
 	cLog(Yellow, "Popularity: %v", c.Popularity)
 
@@ -1699,6 +1736,9 @@ func (c *CoreActivityRecord) Decode(d *Decoder) error {
 	imports, err := d.DecodeInteger()
 	if err != nil {
 		return err
+	}
+	if imports > math.MaxUint16 {
+		return fmt.Errorf("U16 value %d out of range", imports)
 	}
 	c.Imports = U16(imports)
 	cLog(Yellow, "Imports: %v", c.Imports)
@@ -1709,6 +1749,9 @@ func (c *CoreActivityRecord) Decode(d *Decoder) error {
 	if err != nil {
 		return err
 	}
+	if extrinsicCount > math.MaxUint16 {
+		return fmt.Errorf("U16 value %d out of range", extrinsicCount)
+	}
 	c.ExtrinsicCount = U16(extrinsicCount)
 	cLog(Yellow, "ExtrinsicCount: %v", c.ExtrinsicCount)
 
@@ -1718,6 +1761,9 @@ func (c *CoreActivityRecord) Decode(d *Decoder) error {
 	if err != nil {
 		return err
 	}
+	if extrinsicSize > math.MaxUint32 {
+		return fmt.Errorf("U32 value %d out of range", extrinsicSize)
+	}
 	c.ExtrinsicSize = U32(extrinsicSize)
 	cLog(Yellow, "ExtrinsicSize: %v", c.ExtrinsicSize)
 
@@ -1726,6 +1772,9 @@ func (c *CoreActivityRecord) Decode(d *Decoder) error {
 	if err != nil {
 		return err
 	}
+	if exports > math.MaxUint16 {
+		return fmt.Errorf("U16 value %d out of range", exports)
+	}
 	c.Exports = U16(exports)
 	cLog(Yellow, "Exports: %v", c.Exports)
 
@@ -1733,6 +1782,9 @@ func (c *CoreActivityRecord) Decode(d *Decoder) error {
 	bundleSize, err := d.DecodeInteger()
 	if err != nil {
 		return err
+	}
+	if bundleSize > math.MaxUint32 {
+		return fmt.Errorf("U32 value %d out of range", bundleSize)
 	}
 	c.BundleSize = U32(bundleSize)
 	cLog(Yellow, "BundleSize: %v", c.BundleSize)
@@ -1778,6 +1830,9 @@ func (s *ServiceActivityRecord) Decode(d *Decoder) error {
 	if err != nil {
 		return err
 	}
+	if providedCount > math.MaxUint16 {
+		return fmt.Errorf("U16 value %d out of range", providedCount)
+	}
 	s.ProvidedCount = U16(providedCount)
 	cLog(Yellow, "ProvidedCount: %v", s.ProvidedCount)
 
@@ -1786,6 +1841,9 @@ func (s *ServiceActivityRecord) Decode(d *Decoder) error {
 	if err != nil {
 		return err
 	}
+	if providedSize > math.MaxUint32 {
+		return fmt.Errorf("U32 value %d out of range", providedSize)
+	}
 	s.ProvidedSize = U32(providedSize)
 	cLog(Yellow, "ProvidedSize: %v", s.ProvidedSize)
 
@@ -1793,6 +1851,9 @@ func (s *ServiceActivityRecord) Decode(d *Decoder) error {
 	refinementCount, err := d.DecodeInteger()
 	if err != nil {
 		return err
+	}
+	if refinementCount > math.MaxUint32 {
+		return fmt.Errorf("U32 value %d out of range", refinementCount)
 	}
 	s.RefinementCount = U32(refinementCount)
 	cLog(Yellow, "RefinementCount: %v", refinementCount)
@@ -1810,6 +1871,9 @@ func (s *ServiceActivityRecord) Decode(d *Decoder) error {
 	if err != nil {
 		return err
 	}
+	if imports > math.MaxUint32 {
+		return fmt.Errorf("U32 value %d out of range", imports)
+	}
 	s.Imports = U32(imports)
 	cLog(Yellow, "Imports: %v", imports)
 
@@ -1817,6 +1881,9 @@ func (s *ServiceActivityRecord) Decode(d *Decoder) error {
 	extrinsicCount, err := d.DecodeInteger()
 	if err != nil {
 		return err
+	}
+	if extrinsicCount > math.MaxUint32 {
+		return fmt.Errorf("U32 value %d out of range", extrinsicCount)
 	}
 	s.ExtrinsicCount = U32(extrinsicCount)
 	cLog(Yellow, "ExtrinsicCount: %v", extrinsicCount)
@@ -1826,6 +1893,9 @@ func (s *ServiceActivityRecord) Decode(d *Decoder) error {
 	if err != nil {
 		return err
 	}
+	if extrinsicSize > math.MaxUint32 {
+		return fmt.Errorf("U32 value %d out of range", extrinsicSize)
+	}
 	s.ExtrinsicSize = U32(extrinsicSize)
 	cLog(Yellow, "ExtrinsicSize: %v", extrinsicSize)
 
@@ -1834,6 +1904,9 @@ func (s *ServiceActivityRecord) Decode(d *Decoder) error {
 	if err != nil {
 		return err
 	}
+	if exports > math.MaxUint32 {
+		return fmt.Errorf("U32 value %d out of range", exports)
+	}
 	s.Exports = U32(exports)
 	cLog(Yellow, "Exports: %v", exports)
 
@@ -1841,6 +1914,9 @@ func (s *ServiceActivityRecord) Decode(d *Decoder) error {
 	accumulateCount, err := d.DecodeInteger()
 	if err != nil {
 		return err
+	}
+	if accumulateCount > math.MaxUint32 {
+		return fmt.Errorf("U32 value %d out of range", accumulateCount)
 	}
 	s.AccumulateCount = U32(accumulateCount)
 	cLog(Yellow, "AccumulateCount: %v", accumulateCount)
@@ -1858,6 +1934,7 @@ func (s *ServiceActivityRecord) Decode(d *Decoder) error {
 
 // ServicesStatistics
 func (s *ServicesStatistics) Decode(d *Decoder) error {
+	dictionaryStart := d.buf.Len()
 	cLog(Cyan, "Decoding ServicesStatistics")
 
 	var err error
@@ -1890,7 +1967,7 @@ func (s *ServicesStatistics) Decode(d *Decoder) error {
 
 	*s = services
 
-	return nil
+	return d.checkCanonicalDictionary(dictionaryStart, s)
 }
 
 // Statistics
@@ -2741,6 +2818,7 @@ func (a *AccumulatedQueue) Decode(d *Decoder) error {
 
 // AlwaysAccumulateMapItem
 func (a *AlwaysAccumulateMap) Decode(d *Decoder) error {
+	dictionaryStart := d.buf.Len()
 	cLog(Cyan, "Decoding AlwaysAccumulateMapItem")
 
 	var err error
@@ -2771,7 +2849,7 @@ func (a *AlwaysAccumulateMap) Decode(d *Decoder) error {
 		(*a)[key] = val
 	}
 
-	return nil
+	return d.checkCanonicalDictionary(dictionaryStart, a)
 }
 
 // Privileges
@@ -2847,6 +2925,7 @@ func (d *LookupMetaMapkey) Decode(decoder *Decoder) error {
 
 // LookupMetaMapEntry
 func (l *LookupMetaMapEntry) Decode(d *Decoder) error {
+	dictionaryStart := d.buf.Len()
 	cLog(Cyan, "Decoding LookupMetaMapEntry")
 
 	// Decode the size of the map
@@ -2893,11 +2972,12 @@ func (l *LookupMetaMapEntry) Decode(d *Decoder) error {
 		}
 	}
 
-	return nil
+	return d.checkCanonicalDictionary(dictionaryStart, l)
 }
 
 // PreimagesMapEntry
 func (p *PreimagesMapEntry) Decode(d *Decoder) error {
+	dictionaryStart := d.buf.Len()
 	cLog(Cyan, "Decoding PreimagesMapEntry")
 
 	// Decode the size of the map
@@ -2930,11 +3010,12 @@ func (p *PreimagesMapEntry) Decode(d *Decoder) error {
 		(*p)[key] = val
 	}
 
-	return nil
+	return d.checkCanonicalDictionary(dictionaryStart, p)
 }
 
 // Storage
 func (s *Storage) Decode(d *Decoder) error {
+	dictionaryStart := d.buf.Len()
 	cLog(Cyan, "Decoding Storage")
 
 	// Decode the size of the map
@@ -2975,7 +3056,7 @@ func (s *Storage) Decode(d *Decoder) error {
 		(*s)[str] = val
 	}
 
-	return nil
+	return d.checkCanonicalDictionary(dictionaryStart, s)
 }
 
 // ServiceAccount
@@ -3003,6 +3084,7 @@ func (s *ServiceAccount) Decode(d *Decoder) error {
 
 // Accounts (Delta)
 func (a *ServiceAccountState) Decode(d *Decoder) error {
+	dictionaryStart := d.buf.Len()
 	cLog(Cyan, "Decoding Accounts")
 
 	// Encode the size of the map
@@ -3037,7 +3119,7 @@ func (a *ServiceAccountState) Decode(d *Decoder) error {
 		(*a)[key] = value
 	}
 
-	return nil
+	return d.checkCanonicalDictionary(dictionaryStart, a)
 }
 
 // // AccumulatedHistory
@@ -3347,6 +3429,9 @@ func (b *BoundaryNode) Decode(d *Decoder) error {
 	if err != nil {
 		return err
 	}
+	if isLeafByte > 1 {
+		return fmt.Errorf("BoundaryNode: invalid boolean %d", isLeafByte)
+	}
 	b.IsLeaf = (isLeafByte != 0)
 	return nil
 }
@@ -3491,6 +3576,7 @@ func (a *AccumulatedServiceHash) Decode(d *Decoder) error {
 
 // AccumulatedServiceOutput
 func (a *AccumulatedServiceOutput) Decode(d *Decoder) error {
+	dictionaryStart := d.buf.Len()
 	cLog(Cyan, "Decoding AccumulatedServiceOutput")
 
 	var err error
@@ -3522,7 +3608,7 @@ func (a *AccumulatedServiceOutput) Decode(d *Decoder) error {
 
 	cLog(Yellow, "AccumulatedServiceOutput: %v", *a)
 
-	return nil
+	return d.checkCanonicalDictionary(dictionaryStart, a)
 }
 
 // (7.4) LastAccOut
